@@ -5,7 +5,7 @@ from vlib import Result, log
 
 THEOREMS = ["C15_merge_accepts", "C15_merge_rejects", "C15_preserve_roundtrip", "C15_preserve_rejects",
             "C15_relaxed_accepts", "C15_relaxed_rejects", "C15_refuted_preserve_names", "C15_relaxed_alias_accepted",
-            "C15_refuted_nonstring", "C15_nonvacuous"]
+            "C15_refuted_nonstring", "C15_relaxed_fallback_swallows", "C15_relaxed_rejects_refuted", "C15_nonvacuous"]
 TARGETS = ["Props/C15.v", "Extract/C15.v"]
 ALPH = ["a", "A", "b", "a-", "a_", "1", "", "aB", "a2", "a b"]
 MODES = ["merge", "preserve", "relaxed"]
@@ -39,7 +39,9 @@ def value_lists(tier, rnd):
         for t in itertools.product(ALPH, repeat=k):
             ls.append(list(t))
     extra = [["us", "US", "us1"], ["a", "A", "a1", "A1"], ["ab", "AB", "Ab", "ab2", "ab3"], ["foo-bar", "foo_bar"], ["a2", "a", "A"], [3, 4], [1, "1"], [True, False], ["on", "Off", "ON"], ["x{}y"], ["type", "match"],
-             ["A", "a", "A1"], ["", "none"], [-1, 1], ["a", "a"], ["Ärger", "x"], ["É", "é", "e"], ["Über", "über"]]
+             ["A", "a", "A1"], ["", "none"], [-1, 1], ["a", "a"], ["Ärger", "x"], ["É", "é", "e"], ["Über", "über"],
+             # values whose variant is NAMED Other / Unknown (the relaxed decoder's catch-all arm)
+             ["low", "other", "high"], ["unknown", "x"], ["x", "Unknown", "OTHER"], ["un-known", "o.ther"]]
     return ls, extra
 
 
@@ -68,7 +70,7 @@ def main(tier, seed, replay=None):
     res = Result("C15", tier, seed)
     vlib.build_repo()
     vlib.build_vtool()
-    coq_ok, out = vlib.standard_coq_obligations(res, TARGETS, THEOREMS, expect_closed=6)
+    coq_ok, out = vlib.standard_coq_obligations(res, TARGETS, THEOREMS, expect_closed=8)
     exe = vlib.ocaml_build("c15") if coq_ok else None
     if coq_ok:
         res.oblige("extracted model driver builds", exe is not None)
@@ -231,7 +233,11 @@ fn main() {
                                 else:
                                     viol.append((vals, f"mode relaxed: {p} (a case variant of a declared value) is rejected"))
                             if alower(s) not in low and alower(str(s)) not in [alower(str(v)) for v in vals] and got != "ERR":
-                                viol.append((vals, f"mode relaxed: undeclared string {p} is accepted as {got}"))
+                                ev = read_enum(dumps[i], "E") or []
+                                if any(nm in ("Other", "Unknown") for nm, _, _ in ev):
+                                    known_hits.add("relaxed-fallback-swallows-unknown")
+                                else:
+                                    viol.append((vals, f"mode relaxed: undeclared string {p} is accepted as {got}"))
                     elif p not in ("null",) and got != "ERR" and json.loads(p) in vals:
                         pass
                     elif p not in ("null", '"zzz"', "7") and got == "ERR" and json.loads(p) in vals and not isinstance(json.loads(p), str):
@@ -255,7 +261,11 @@ fn main() {
                             else:
                                 viol.append((vals, f"open-string wrapper mode relaxed: {p} decodes/encodes as {got}, expected one of {sorted(okset)}"))
                     elif not (got.startswith("OK ") and json.loads(got[3:]) == s):
-                        viol.append((vals, f"open-string wrapper mode {m}: {p} decodes/encodes as {got}"))
+                        if m == "relaxed" and any(nm in ("Other", "Unknown") for nm, _, _ in kn):
+                            # the catch-all arm of the known-values enum wins over the open-string alternative
+                            known_hits.add("relaxed-fallback-swallows-unknown")
+                        else:
+                            viol.append((vals, f"open-string wrapper mode {m}: {p} decodes/encodes as {got}"))
     res.counts.update({"evaluations": len(cases) + n_beh, "distinct_nontrivial": len(lists),
                        "traces_validated_against_impl": len(cases), "compiled_enums": len(sample), "behaviour_probes": n_beh,
                        "rule": "value lists: all lists of up to 3 values over a 10-symbol alphabet (case-only and separator-only differences, digits, empty string, duplicates) sampled in quick / complete in thorough, plus hand lists (non-string values, keywords, braces) x 3 enum modes; emitted enum read back with syn vs the extracted model (names, rename, alias); a sample compiled in the arena and probed with every declared value, its case variants and near misses, against the model's decoder and the property's oracle; plus the anyOf known+open-string wrapper"})
